@@ -166,7 +166,10 @@ impl GenericsAnalyzer {
                 self.deps_with_generics(
                     FnDeps::Generic {
                         generic_param: None,
-                        trait_bounds: extract_trait_bounds(&type_impl_trait.bounds),
+                        trait_bounds: extract_trait_bounds(
+                            &type_impl_trait.bounds,
+                            &input_sig.generics,
+                        ),
                     },
                     &input_sig.generics,
                 )
@@ -238,7 +241,7 @@ impl GenericsAnalyzer {
         }
 
         // Extract "direct" bounds, not from where clause
-        let mut deps_trait_bounds = extract_trait_bounds(&matching_type_param.bounds);
+        let mut deps_trait_bounds = extract_trait_bounds(&matching_type_param.bounds, generics);
 
         if let Some(where_clause) = &generics.where_clause {
             for predicate in &where_clause.predicates {
@@ -256,7 +259,8 @@ impl GenericsAnalyzer {
                             let first_segment = type_path.path.segments.first().unwrap();
 
                             if &first_segment.ident == generic_param_ident {
-                                let where_paths = extract_trait_bounds(&predicate_type.bounds);
+                                let where_paths =
+                                    extract_trait_bounds(&predicate_type.bounds, generics);
 
                                 deps_trait_bounds.extend(
                                     where_paths.into_iter().map(|bound| {
@@ -358,19 +362,23 @@ fn with_bound_lifetimes(
 
 fn extract_trait_bounds(
     bounds: &syn::punctuated::Punctuated<syn::TypeParamBound, syn::token::Plus>,
+    generics: &syn::Generics,
 ) -> Vec<syn::TypeParamBound> {
     bounds
         .iter()
-        .filter(|bound| {
+        .filter(|bound| match bound {
             // A relaxed bound (`?Sized`) is not a requirement on the dependency, and is not permitted
             // in the `Self: ..` where clause the bounds are copied into.
-            !matches!(
-                bound,
-                syn::TypeParamBound::Trait(syn::TraitBound {
-                    modifier: syn::TraitBoundModifier::Maybe(_),
-                    ..
-                })
-            )
+            syn::TypeParamBound::Trait(syn::TraitBound {
+                modifier: syn::TraitBoundModifier::Maybe(_),
+                ..
+            }) => false,
+            // A lifetime parameter of the function is declared on the method, not on the impl
+            // (where the method's `&'a self` implies `Self: 'a` anyway).
+            syn::TypeParamBound::Lifetime(lifetime) => !generics
+                .lifetimes()
+                .any(|param| param.lifetime.ident == lifetime.ident),
+            _ => true,
         })
         .cloned()
         .collect()
